@@ -6,7 +6,8 @@ UNIT_MODES = {
 }
 
 PROPS = {
-    'C01': dict(units=['core_add'], kani=[], title='add/sub/neg/abs exact in every overflow mode'),
+    'C01': dict(units=['core_add'], title='add/sub/neg/abs exact in every overflow mode'),
+    'C14': dict(units=[], level='model_checking', title='float casts'),
 }
 
 QUICK_DIGITS = ['u64', 'u8']
